@@ -9,8 +9,10 @@ import (
 	"regexp"
 	"runtime/debug"
 	"sort"
+	"strconv"
 	"strings"
 	"sync"
+	"syscall"
 
 	"github.com/cosmos/cosmos-proto/zzverif/glue"
 )
@@ -121,6 +123,7 @@ var (
 	flagReplay = flag.String("replay", "", "replay file")
 	flagArg    = flag.String("arg", "", "engine specific argument")
 	flagProg   = flag.String("progress", "", "progress file (engine total)")
+	flagCase   = flag.String("casefile", "", "file that always names the case being worked on (read by the driver when the process dies)")
 )
 
 var rep *Report
@@ -239,6 +242,7 @@ func main() {
 		fmt.Fprintf(os.Stderr, "unknown engine %q; have %v\n", *flagEngine, names)
 		os.Exit(2)
 	}
+	openCaseFile()
 	f(rep)
 	b, err := json.MarshalIndent(rep, "", " ")
 	if err != nil {
@@ -257,9 +261,56 @@ func main() {
 // subject call that was not individually wrapped) is reported as a violation of
 // the engine's primary property instead of killing the process.
 func guardCase(rep *Report, prop, engine, typ string, idx int, f func()) {
+	markCase(prop, engine, typ, idx)
+	defer markCase("", "", "", -1)
 	pan, pmsg := safely(f)
 	if pan {
 		rep.Violate(prop, engine+"/unhandled-panic", typ, "a call into the subject panicked outside the per-call monitors: "+pmsg,
 			replayCase{Engine: engine, Type: typ, Seed: *flagSeed, Index: idx})
 	}
+}
+
+// ---- case file: a 512-byte shared mapping that names the case in progress, so that the driver can attribute a
+// fatal runtime error (stack overflow, concurrent map writes: not recoverable, the process dies) to a case.
+// Layout: bytes 0..7 property (padded with NUL), bytes 8.. "engine\x00type\x00index\x00".
+
+var caseMem []byte
+
+func openCaseFile() {
+	if *flagCase == "" {
+		return
+	}
+	f, err := os.OpenFile(*flagCase, os.O_RDWR|os.O_CREATE, 0o644)
+	if err != nil {
+		return
+	}
+	f.Truncate(512)
+	b, err := syscall.Mmap(int(f.Fd()), 0, 512, syscall.PROT_READ|syscall.PROT_WRITE, syscall.MAP_SHARED)
+	if err == nil {
+		caseMem = b
+	}
+}
+
+func markCase(prop, engine, typ string, idx int) {
+	if caseMem == nil {
+		return
+	}
+	markProp(prop)
+	rest := caseMem[8:]
+	for i := range rest {
+		rest[i] = 0
+	}
+	if engine != "" {
+		copy(rest[:len(rest)-1], engine+"\x00"+typ+"\x00"+strconv.Itoa(idx)+"\x00")
+	}
+}
+
+// markProp names the property whose clause the case is about to exercise.
+func markProp(prop string) {
+	if caseMem == nil {
+		return
+	}
+	var b [8]byte
+	copy(b[:], prop)
+	copy(caseMem[:8], b[:])
 }
